@@ -14,6 +14,8 @@ from harness.session import Session
 
 PROP = "C12"
 LEVEL = "exploration"
+TECHNIQUE = 'segment-length, count, halving-monotonicity and chord-error monitors on interpreter-reconstructed vertices; unit-switch rescaling check'
+LEVEL_TEXT = 'Held for L/res over 10..4e3 (quick) / 3e4 (thorough) in both unit systems.'
 RULE = ("constant-speed shapes (arc, arc_radius, circle, constant-radius helix/thread) with R >= 5*res "
         "and L >= 10*res, L/res log-uniform over 10..1e4 (quick) / 3e4 (thorough), in mm and inches; "
         "every shape (incl. spline/spiral/varying helix) is traced at res and res/2; unit switches "
